@@ -90,7 +90,8 @@ def run_history(real, src, hist, numpy, check_fields=True):
     cur = 0
     problems = []
     for c in hist:
-        o = objs[cur]
+        oi = c.get('o', cur + 1) - 1          # the object the call is made on (any existing object)
+        o = objs[oi]
         if c['k'] == 'spatial':
             r = guarded(o.filter_spatial, real.region, in_place=c['inplace'])
         elif c['k'] == 'one':
@@ -103,7 +104,8 @@ def run_history(real, src, hist, numpy, check_fields=True):
         if c['inplace']:
             if r is not o:
                 problems.append('in_place call returned a different object')
-                objs[cur] = r
+                objs[oi] = r
+            cur = oi
         else:
             if r is o:
                 problems.append('in_place=False returned the same object')
@@ -132,7 +134,7 @@ def run(chk, replay=None):
     chk.tlc('Filter', 'MCG_Filter.cfg', timeout=1200)
     res = chk.tlc('GenFilter', 'Gen_Filter.cfg' if quick else 'GenT_Filter.cfg', workers=1, coverage=False, count_states=False, timeout=2400)
     cases = res.tagged.get('CASE', [])
-    if len(cases) < 40000:
+    if len(cases) < 60000:
         raise MachineryError('Gen produced %d histories' % len(cases))
     chk.log('Gen: %d histories' % len(cases))
     pairs = [(a, b) for a in ATTRS for b in ATTRS if a != b]
@@ -169,7 +171,7 @@ def run(chk, replay=None):
         chk.sample({'replayed': d['case']['hist']})
         return
 
-    step = 3 if quick else 1
+    step = 4 if quick else 1
     okc = 0
     for ci in range(0, len(cases), 1):
         if quick and (ci * 7 + chk.seed) % step:
@@ -177,10 +179,10 @@ def run(chk, replay=None):
         case = cases[ci]
         bad, key = check_case(case, ci)
         hist = case['hist']
-        if len({c['inplace'] for c in hist}) == 2 or any(st['op'] in ('==', '<=', '>=') for c in hist for st in c['sts']):
+        if len({c['inplace'] for c in hist}) == 2 or any(c.get('o', 1) != i + 1 for i, c in enumerate(hist)) or any(st['op'] in ('==', '<=', '>=') for c in hist for st in c['sts']):
             chk.nontrivial('%s|%s|%s' % (key[0], key[1], hist))
         if bad:
-            kinds = '+'.join(c['k'] + ('!' if c['inplace'] else '') for c in hist)
+            kinds = '+'.join(c['k'] + ('!' if c['inplace'] else '') + '@%d' % c.get('o', 0) for c in hist)
             ops = '+'.join(st['op'] for c in hist for st in c['sts'])
             chk.violation('gen:%s:%s:%s' % (bad['why'].split(':')[0], kinds, ops),
                           {'case': case, 'ri': ci, 'attrs': key[:2], 'triples': key[2:4], 'datetime_form': key[4], 'mismatch': bad})
